@@ -1,3 +1,14 @@
+mod c21;
+mod c22;
+mod msgs;
+mod payloads;
+mod src;
+
+use pvkit::session::CheckDef;
+
 fn main() {
-    pvkit::main(&[]);
+    pvkit::main(&[
+        CheckDef { id: "C21", level: "exploration", run: c21::run },
+        CheckDef { id: "C22", level: "exploration", run: c22::run },
+    ]);
 }
